@@ -16,7 +16,7 @@ class Gen:
         self.nextv = 1
         self.tick = 10
         self.profile = profile
-        self.ranges = profile in ("ranges", "copy", "c19", "rehash", "filters")
+        self.ranges = profile in ("ranges", "copy", "c19", "rehash", "filters", "c11")
         self.filters = profile in ("filters",)
         self.structured = seed % 2 == 0
         self.steps = []
@@ -75,6 +75,39 @@ class Gen:
         n = self.rng.choice(fl)
         self.a.remove(d, n)
         return "delete %d/%s" % (d, n)
+
+    def op_restore(self):
+        """a file that is recorded but no longer on the disk comes back with the same bytes and the same time stamp (restored
+        from a backup), or with the same bytes under a new name"""
+        st = self.recorded()
+        cands = []
+        for d in self.rec.D:
+            for n, f in st["cf"][d].items():
+                if n not in st["fs"][d] and f["bl"] and not os.path.lexists(self.a.path(int(d), n)) and f["mt"][0] >= 0:
+                    vals = []
+                    for b in f["bl"]:
+                        h = b["h"]
+                        if b["st"] != "BLK":
+                            vals = None; break
+                        if h.startswith("v") and h[1:].isdigit():
+                            vals.append(int(h[1:]))
+                        elif h.startswith("s") and h[1:].isdigit():
+                            vals.append(("s", int(h[1:])))
+                        else:
+                            vals = None; break
+                    if vals:
+                        cands.append((int(d), n, vals, f["mt"]))
+        if not cands:
+            return None
+        d, n, vals, mt = self.rng.choice(cands)
+        if self.rng.random() < 0.7:
+            self.a.write_file(d, n, vals, mtime=mt[0], mtime_ns=mt[1])
+            return "restore %d/%s (same bytes, same stamp)" % (d, n)
+        m = self.rng.choice(self.names)
+        if os.path.lexists(self.a.path(d, m)):
+            return None
+        self.a.write_file(d, m, vals, mtime=self.stamp())
+        return "restore %d/%s as %s (same bytes)" % (d, n, m)
 
     def op_copy(self):
         """cp -p of a file to another disk (same name, size and time stamp): candidate for copy detection"""
@@ -406,6 +439,8 @@ class Gen:
         mid = None
         if r < 0.10:
             flags.append("-F")
+        elif r < 0.16 and self.profile in ("syncheavy", "ranges", "mixed", "copy", "rehash", "c11"):
+            flags.append("-R")
         elif r < 0.25:
             flags.append("--test-kill-after-sync")
         elif r < 0.45:
@@ -421,7 +456,7 @@ class Gen:
         if self.profile == "c19":
             if self.rng.random() < 0.3 and not mid:
                 flags.append("-h")
-            if "-h" not in flags and "-F" not in flags and self.rng.random() < 0.15:      # -N excludes -h and -F
+            if "-h" not in flags and "-F" not in flags and "-R" not in flags and self.rng.random() < 0.15:      # -N excludes -h, -F, -R
                 flags.append("--force-nocopy")
         self.a.clock += self.rng.choice([0, 8, 100, 100000])
         r, out = self.rec.sync(*flags, midrun=mid)
@@ -475,14 +510,14 @@ class Gen:
     WEIGHTS = {
         "mixed": [("add", 20), ("touchcmd", 3), ("touch", 4), ("delete", 8), ("corrupt", 6), ("corrupt_parity", 4), ("lose_disk", 2),
                   ("lose_parity", 2), ("sync", 22), ("check", 8), ("fix", 10), ("scrub", 8), ("diff", 4)],
-        "syncheavy": [("add", 30), ("touchcmd", 3), ("touch", 6), ("delete", 14), ("sync", 40), ("diff", 5), ("check", 5)],
+        "syncheavy": [("add", 30), ("touchcmd", 3), ("touch", 6), ("delete", 14), ("restore", 8), ("sync", 40), ("diff", 5), ("check", 5)],
         "ranges": [("add", 18), ("touch", 3), ("delete", 8), ("corrupt", 5), ("corrupt_parity", 3), ("lose_disk", 2),
                    ("lose_parity", 1), ("sync", 26), ("check", 8), ("fix", 14), ("scrub", 4), ("diff", 2)],
         "copy": [("add", 14), ("copy", 16), ("touch", 3), ("delete", 8), ("corrupt", 3), ("lose_disk", 2),
                  ("sync", 28), ("check", 6), ("fix", 8), ("diff", 4)],
         "c11": [("add", 10), ("samesize", 5), ("append", 5), ("truncate", 4), ("delete", 6), ("rename", 8), ("move", 6), ("copy", 4),
                 ("replace_kind", 6), ("symlink", 6), ("hardlink", 5), ("dir", 5), ("touch", 4), ("nsec", 2), ("touchcmd", 2),
-                ("sync", 16), ("diff", 10), ("list", 6), ("check", 4)],
+                ("restore", 6), ("sync", 16), ("diff", 10), ("list", 6), ("check", 4)],
         "c19": [("add", 12), ("copy", 16), ("move", 10), ("nsec", 6), ("touch", 2), ("delete", 6), ("corrupt", 3), ("lose_disk", 3),
                 ("sync", 26), ("check", 5), ("fix", 12), ("diff", 2)],
         "filters": [("add", 12), ("touch", 2), ("delete", 10), ("corrupt", 14), ("corrupt_burst", 3), ("corrupt_parity", 5),
